@@ -13,6 +13,22 @@ CLAIMED = {
    text="Machine-checked Lean 4 proof: the bounded draw is exactly uniform (each result r<n is hit by exactly floor(2^32/n) consecutive accepted source words; rejected words redraw) and Fisher-Yates maps legal draw vectors bijectively onto arrangements, hence the header order is uniform and independent of the caller's order given a uniform source. Tied to rand.go by driving the exported csprngUint32n/csprngShuffle on boundary words of every acceptance threshold and on every draw vector for n<=5/6.",
    note="Trusted: Lean kernel, hook exports under the verif tag, correspondence harness, uniformity of crypto/rand. The hidden-identity half (field provenance) is stated over the sender model in Props/C19Fields once the encoder tie is in place.",
    technique="Lean 4 proof (interval counting, induction on Fisher-Yates) + differential correspondence on enumerated sources", design="§7 C19"),
+ "C01": dict(
+   text="Machine-checked Lean 4 proof over an executable model of encrypt.go/decrypt.go (generic in the primitives, which only need to be functionally lawful): for every plaintext, version, named/anonymous sender, recipient list with any visible/hidden pattern, chunk size and recipient position, the holder of that recipient's key opens the sender model's packets to exactly the plaintext with the true sender / anonymous flag, its own key and hidden flag; no-key keyrings get no-decryption-key and no bytes; chunking facts at every length; all-at-once = streaming by construction; MessagePack parse∘encode = id. Tied to /repo by a byte-exact differential of Seal (scripted crypto/rand, shuffles included) and an outcome/MKI/call-log differential of Open at every recipient position, plus the round-trip predicate evaluated on Open, NewDecryptStream (1-byte reads) and Dearmor62DecryptOpen.",
+   note="Assumes Prims.Lawful, NoSpuriousOpen (explicit hypothesis), distinct recipient keys, non-empty visible key ids, named sender key != ephemeral key. Trusted: Lean kernel; Lean re-implementations of the primitives (driver only, 1261 vectors vs x/crypto); go-codec; correspondence harness. Armored form agreement is by the implementation-side predicate until C11's theorem composes.",
+   technique="Lean 4 proof (round trip by induction over the chunk plan; dh commutativity) + byte-exact differential correspondence", design="§7 C01"),
+ "C03": dict(
+   text="Machine-checked Lean 4 proof over the model of signcrypt_seal.go/signcrypt_open.go: box-key recipients at every position (under NoIdentifierCollision) and symmetric-key recipients under any resolver that resolves a non-empty subset of identifiers to their true keys recover exactly the plaintext and the sender's signing key (none if anonymous); no key => no-decryption-key. Tied to /repo by byte-exact SigncryptSeal (scripted randomness) and outcome-exact SigncryptOpen for every position and recipient kind.",
+   note="Assumes Prims.Lawful, NoIdentifierCollision, signing public key not all-zero. Trusted base as C01.",
+   technique="Lean 4 proof + byte-exact differential correspondence", design="§7 C03"),
+ "C05": dict(
+   text="Machine-checked Lean 4 proof over the model of sign_stream.go/verify_stream.go/verify.go: for every message, version, chunk size, key and header nonce, a keyring knowing the signer verifies the attached-signature packets to exactly the message and the signer's key; unknown signer => no-sender-key and no bytes. Tied to /repo by byte-exact Sign (scripted randomness) and outcome-exact Verify, plus the predicate on Verify, NewVerifyStream (1-byte reads), Dearmor62Verify.",
+   note="Assumes Prims.Lawful. Trusted base as C01.",
+   technique="Lean 4 proof + byte-exact differential correspondence", design="§7 C05"),
+ "C07": dict(
+   text="Machine-checked Lean 4 proof: detached round trip; soundness (success only through a verified signature, under the key looked up for the header's signer, on exactly domain_detached || hash(hash(header bytes) || message), with format name, admitted version and detached mode checked); the three domain strings (generated from /repo) are pairwise non-prefix, so attached/signcryption signatures are signatures on different inputs. Tied to /repo by byte-exact SignDetached and outcome-exact VerifyDetached on every single-bit change of message and signature, every truncation, header edits, attached-as-detached and transplants.",
+   note="Assumes Prims.Lawful for the round trip; soundness holds for every Prims. 'Signer really signed' is then C06's reduction (signature forgery / hash collision as explicit Break). Trusted base as C01; SHA-512 streaming = one-shot.",
+   technique="Lean 4 proof (case analysis of the verifier; decide on generated domain strings) + differential correspondence", design="§7 C07"),
 }
 
 ALL = ["C%02d" % i for i in range(1, 21)]
